@@ -5,7 +5,7 @@
    The model's outcome is compared with Configuration().read and the potable CLI on generated well-formed models and on
    every catalogue mutation of them; malformations below the lexical level of the model (non-numeric tokens, placeholders,
    text that is not an INI file, formula syntax) are checked by the oracle only. *)
-From V Require Import lib.Common model.Validate proof.C16 model.Ini proof.IniProofs proof.IniFile model.DefnSyntax model.Lexer proof.C09Syntax proof.C09Lexer proof.C16Text.
+From V Require Import lib.Common model.Validate proof.C16 model.Ini proof.IniProofs proof.IniFile model.DefnSyntax model.Lexer proof.C09Syntax proof.C09Lexer proof.C16Text model.Store model.ItemLabel proof.IniFile2 proof.C14Label proof.StoreText.
 Local Open Scope Z_scope.
 
 (* --- a table is written exactly for the well-formed models; every other model is a configuration error; no third outcome *)
@@ -96,6 +96,20 @@ Proof. exact accept_ws. Qed.
 Theorem c16_text_unreadable : forall reg mreg z0 idn numv text, read_value idn numv text = None -> accept_text reg mreg z0 idn numv text = false.
 Proof. exact reject_unreadable. Qed.
 Print Assumptions c16_text_spelling.
+
+(* --- species keys as text (model/ItemLabel.v: pair_key / fs_key restate _pair_species_func and the species_func of the
+       Finnis-Sinclair densities): the blank-free text of a pair key A-B / of a density key A->B names its two species whatever
+       the labels are; a key without the separator, with two of them, or with a species missing is refused (fix fdfc609) *)
+Theorem c16_species_keys : forall (ltext : nat -> list Z), (forall n, label_ok (ltext n)) -> forall a b,
+  pair_key (canon ltext (KPair a b)) = Some (ltext a, ltext b) /\ fs_key (canon ltext (KFS a b)) = Some (ltext a, ltext b).
+Proof. intros ltext L a b. split; [apply pair_key_canon, L|apply fs_key_canon, L]. Qed.
+Theorem c16_bad_species_keys : forall k a b c, without 45%Z k -> without 45%Z a -> all_sp a ->
+  pair_key k = None /\ fs_key k = None /\ pair_key (k ++ 45%Z :: b ++ 45%Z :: c) = None /\ pair_key (a ++ 45%Z :: b) = None /\ pair_key (k ++ 45%Z :: a) = None.
+Proof.
+  intros k a b c Hk Ha Hs. split; [apply pair_key_no_dash, Hk|]. split; [apply fs_key_no_arrow, Hk|]. split; [apply pair_key_two_dashes, Hk|].
+  destruct (pair_key_missing_species a Ha Hs b) as [A _]. destruct (pair_key_missing_species a Ha Hs k) as [_ B]. split; [exact A|exact (B Hk)].
+Qed.
+Print Assumptions c16_species_keys.
 
 (* --- text that is not an INI file (model/Ini.v, the line parser of configparser as the repository configures it): when the
        first line that is neither blank nor a comment is not a section header the parse fails -- ConfigParser turns every
